@@ -438,13 +438,14 @@ def maybe_replace_with_fstring(
     # now
     if any(
         any(
-            [
+            part is not None
+            for part in (
                 cs.mapping_key,
                 cs.conversion_flags,
                 cs.field_width,
-                cs.precision,
+                cs.precision,  # a precision of 0 ("%.0s") is falsy but not absent
                 cs.length_modifier,
-            ]
+            )
         )
         for cs in fs.specifiers
     ):
